@@ -38,6 +38,26 @@ fn entries(x: &[u8]) -> Vec<(&'static str, O1)> {
     v
 }
 
+/// One call only (first pass over a history): an input that meets the precondition must come back
+/// complete from the entry point `which`.
+pub fn judge_light(x: &[u8], which: u64, rec: &mut Recorder) {
+    let (entry, o) = match (which % 4, std::str::from_utf8(x)) {
+        (1, Ok(s)) => ("v1-str", v1_str(s)),
+        (2, Ok(s)) => ("fromstr-header", v1_fromstr_header(s)),
+        (3, Ok(s)) => ("fromstr-addr", v1_fromstr_addr(s)),
+        _ => ("v1-bytes", v1_bytes(x)),
+    };
+    rec.event();
+    if must_be_final(x) && !matches!(o, O1::Panic(_)) && (o.incomplete() || !matches!(o.flags(), Some((false, true)))) {
+        rec.violation(
+            &format!("final-input-flagged-incomplete:{}", entry),
+            enc_case("v1", x),
+            skeleton_text(x),
+            format!("{}: input {:?} already contains its first line break followed by a byte (or 107 bytes without CR), yet the result {} is flagged incomplete (single call, right after a related input in the same buffer)", entry, show(x, 160), o.class()),
+        );
+    }
+}
+
 pub fn judge(x: &[u8], rec: &mut Recorder, simulate: bool) {
     let fin = must_be_final(x);
     rec.case(hash_bytes(x), fin);
@@ -171,7 +191,7 @@ impl Monitor for C18 {
         let x = v1_case(stream, idx, seed);
         // the receiver simulation costs ~len parses: run it on every 4th case of the big streams
         let simulate = idx % 4 == 0 || stream == "v1-token-edit1" || stream == "v1-len";
-        spec::sib::run_v1(&x, idx, 4, |x| judge(x, rec, simulate));
+        spec::sib::run_v1_two_pass(&x, idx, 4, |x, light| if light { judge_light(x, idx / 64, rec) } else { judge(x, rec, simulate) });
     }
     fn floor(&self, tier: Tier) -> Vec<&'static str> {
         if tier == Tier::Miri {
